@@ -76,6 +76,56 @@ theorem decrement_exact (o s : Addr) (d : Nat) (w : World) :
   · have : ((w.allow o s : Int) - (d : Int)).natAbs = w.allow o s - d := by omega
     simp [runDecW, decrementProg, execAL, execA, icKnown, ieKnown, evalIC, evalIE, cmp_lt_zero, updI, h, this]
 
+/-! ### msg.value -/
+
+theorem cmp_ne_zero (a b : Int) : cmpHolds .ne (cmpInt a b) 0 = (a != b) := by
+  unfold cmpHolds cmpInt
+  by_cases h : a < b
+  · have : a ≠ b := by omega
+    simp [h, this]
+  · by_cases h2 : a = b <;> simp [h, h2]
+
+/-- a flow whose only guard is `taken != msg.value → error`: the layer is the identity exactly when msg.value is positive,
+equals `taken` and is covered by the caller's balance (value in from the caller, the same amount back out to the caller) -/
+theorem valueLayer_eq (f : ValueFlow) (env : Env) (call : Call) (w : World) (hk : flowKnown f = true)
+    (hg : f.guards = [⟨f.taken, .value, .ne, 0⟩]) :
+    valueLayer f env call w =
+      if decide (env.caller ≠ env.self) && decide (0 < env.value) && env.value == evalVE env.value call.numArg f.taken &&
+          decide (env.value ≤ w.bal env.caller) then .ok w else .error .value := by
+  unfold valueLayer
+  simp only [hk, hg, Bool.not_true, Bool.false_eq_true, ↓reduceIte]
+  by_cases hcs : env.caller = env.self
+  · simp [hcs]
+  · by_cases hb : w.bal env.caller < env.value
+    · have : ¬ env.value ≤ w.bal env.caller := by omega
+      simp [hcs, hb, this]
+    · by_cases hv : env.value = 0
+      · simp [hcs, hv]
+      · by_cases hgd : env.value = evalVE env.value call.numArg f.taken
+        · have hle : env.value ≤ w.bal env.caller := by omega
+          have hpos : 0 < env.value := by omega
+          simp [hcs, hb, hv, guardPasses, evalVE, cmp_ne_zero, ← hgd, hle, hpos, upd]
+          have hn : ¬ (w.bal env.self + env.value < env.value) := by omega
+          have hbal : upd (upd (upd (upd w.bal env.caller (w.bal env.caller - env.value)) env.self (w.bal env.self + env.value))
+                env.self (w.bal env.self)) env.caller (w.bal env.caller) = w.bal := by
+            funext x; simp only [upd]
+            by_cases h1 : x = env.caller
+            · subst h1; simp
+            · by_cases h2 : x = env.self
+              · subst h2; simp [h1]
+              · simp [h1, h2]
+          simp [hn, hbal]
+        · have hg' : ¬ ((evalVE env.value call.numArg f.taken : Int) = (env.value : Int)) := by omega
+          simp [hcs, hb, hv, guardPasses, evalVE, cmp_ne_zero, hgd, hg']
+
+theorem flow_crossChain : valueFlows.find? (fun f => f.abiName == "crossChain") =
+    some ⟨"crossChain", "value.Cmp(big.NewInt(0)) == 1 && fxcontract.IsZeroEthAddress(args.Token)",
+      [⟨.add (.arg "Amount") (.arg "Fee"), .value, .ne, 0⟩], .add (.arg "Amount") (.arg "Fee"), "caller"⟩ := by decide
+
+theorem flow_increaseFee : valueFlows.find? (fun f => f.abiName == "increaseBridgeFee") =
+    some ⟨"increaseBridgeFee", "value.Cmp(big.NewInt(0)) == 1 && fxcontract.IsZeroEthAddress(args.Token)",
+      [⟨.arg "Fee", .value, .ne, 0⟩], .arg "Fee", "caller"⟩ := by decide
+
 /-! ### table look-ups (kernel-evaluated over the regenerated tables) -/
 
 theorem row_delegate : rows.find? (fun r => r.info.name == "delegateV2") = some ⟨"staking", ⟨"delegateV2", false, .caller, false⟩⟩ := by decide
@@ -133,8 +183,8 @@ private theorem gen_of_row (dis : List (List Char)) (ro : Bool) (addr mid : List
     (r : Row) (hrow : rows.find? (fun r => r.info.name == call.name) = some r) (hw : r.info.readonly = false)
     (hd : ∃ d, dispatchers.find? (fun d => d.contract == r.contract) = some d ∧
       d.steps = ["readonly-guard", "disabled-check", "run"])
-    (heff : effectGen r env call w = specEffect env.caller call w) :
-    runGen dis ro addr mid env call w = specRun dis ro addr mid env.caller call w := by
+    (heff : effectGen r env call w = specEffectV env call w) :
+    runGen dis ro addr mid env call w = specRun dis ro addr mid env call w := by
   obtain ⟨d, hd1, hd2⟩ := hd
   unfold runGen specRun
   rw [hrow]; simp only [hd1, hd2, runSteps_canonical, checkDisabledGen_spec, hw, heff, res_eta]
@@ -142,8 +192,8 @@ private theorem gen_of_row (dis : List (List Char)) (ro : Bool) (addr mid : List
 
 theorem effectGen_tfs (env : Env) (f t : Addr) (s : Nat) (w : World) :
     effectGen ⟨"staking", ⟨"transferFromShares", false, .argFrom, true⟩⟩ env (.transferFromShares f t s) w =
-      specEffect env.caller (.transferFromShares f t s) w := by
-  simp only [effectGen, isShareCall, Call.name, clo_tfs, runClosure, stepClosure, Call.addrArg, Call.amtArg,
+      specEffectV env (.transferFromShares f t s) w := by
+  simp only [specEffectV, specValueOk, effectGen, isShareCall, Call.name, clo_tfs, runClosure, stepClosure, Call.addrArg, Call.amtArg,
     applyErr, decrement_exact, specEffect, effect, ↓reduceIte]
   by_cases h : w.allow f env.caller < s
   · simp [h]
@@ -152,37 +202,55 @@ theorem effectGen_tfs (env : Env) (f t : Addr) (s : Nat) (w : World) :
 
 theorem effectGen_ts (env : Env) (t : Addr) (s : Nat) (w : World) :
     effectGen ⟨"staking", ⟨"transferShares", false, .caller, false⟩⟩ env (.transferShares t s) w =
-      specEffect env.caller (.transferShares t s) w := by
-  simp only [effectGen, isShareCall, Call.name, clo_ts, runClosure, stepClosure, Call.addrArg, Call.amtArg,
+      specEffectV env (.transferShares t s) w := by
+  simp only [specEffectV, specValueOk, effectGen, isShareCall, Call.name, clo_ts, runClosure, stepClosure, Call.addrArg, Call.amtArg,
     applyErr, specEffect, effect, ↓reduceIte]
   simp
   cases moveShares w env.caller t s <;> rfl
 
 theorem effectGen_approve (env : Env) (sp : Addr) (s : Nat) (w : World) :
     effectGen ⟨"staking", ⟨"approveShares", false, .caller, false⟩⟩ env (.approve sp s) w =
-      specEffect env.caller (.approve sp s) w := by
-  simp [effectGen, isShareCall, Call.name, clo_approve, runClosure, stepClosure, Call.addrArg, Call.amtArg,
+      specEffectV env (.approve sp s) w := by
+  simp [specEffectV, specValueOk, effectGen, isShareCall, Call.name, clo_approve, runClosure, stepClosure, Call.addrArg, Call.amtArg,
     specEffect, effect]
+
+theorem effectGen_crossChain (env : Env) (a f : Nat) (r : Addr) (w : World) :
+    effectGen ⟨"crosschain", ⟨"crossChain", false, .caller, false⟩⟩ env (.crossChain a f r) w =
+      specEffectV env (.crossChain a f r) w := by
+  simp only [effectGen, isShareCall, isPayable, Call.name, flow_crossChain, Bool.false_eq_true, ↓reduceIte]
+  rw [valueLayer_eq _ _ _ _ (by decide) rfl]
+  simp only [specEffectV, specValueOk, evalVE, Call.numArg, specEffect, resolve, Call.name]
+  by_cases hc : (decide (env.caller ≠ env.self) && decide (0 < env.value) && env.value == a + f &&
+      decide (env.value ≤ w.bal env.caller)) = true <;> simp only [hc] <;> rfl
+
+theorem effectGen_increaseFee (env : Env) (i f : Nat) (w : World) :
+    effectGen ⟨"crosschain", ⟨"increaseBridgeFee", false, .caller, false⟩⟩ env (.increaseFee i f) w =
+      specEffectV env (.increaseFee i f) w := by
+  simp only [effectGen, isShareCall, isPayable, Call.name, flow_increaseFee, Bool.false_eq_true, ↓reduceIte]
+  rw [valueLayer_eq _ _ _ _ (by decide) rfl]
+  simp only [specEffectV, specValueOk, evalVE, Call.numArg, specEffect, resolve, Call.name]
+  by_cases hc : (decide (env.caller ≠ env.self) && decide (0 < env.value) && env.value == f &&
+      decide (env.value ≤ w.bal env.caller)) = true <;> simp only [hc] <;> rfl
 
 /-- REFINEMENT: for every state-changing call the dispatcher assembled from the regenerated step order, the regenerated
 governance-check program, the regenerated closures and the regenerated `decrementAllowance` equals the specification -/
 theorem runGen_refines (dis : List (List Char)) (ro : Bool) (addr mid : List Char) (env : Env) (call : Call) (w : World)
     (hv : call.isView = false) :
-    runGen dis ro addr mid env call w = specRun dis ro addr mid env.caller call w := by
+    runGen dis ro addr mid env call w = specRun dis ro addr mid env call w := by
   cases call with
   | view n => simp [Call.isView] at hv
-  | delegate a => exact gen_of_row _ _ _ _ _ _ _ _ row_delegate rfl disp_staking (by simp [effectGen, isShareCall, specEffect, resolve, Call.name])
-  | undelegate a => exact gen_of_row _ _ _ _ _ _ _ _ row_undelegate rfl disp_staking (by simp [effectGen, isShareCall, specEffect, resolve, Call.name])
-  | redelegate a => exact gen_of_row _ _ _ _ _ _ _ _ row_redelegate rfl disp_staking (by simp [effectGen, isShareCall, specEffect, resolve, Call.name])
-  | withdraw => exact gen_of_row _ _ _ _ _ _ _ _ row_withdraw rfl disp_staking (by simp [effectGen, isShareCall, specEffect, resolve, Call.name])
+  | delegate a => exact gen_of_row _ _ _ _ _ _ _ _ row_delegate rfl disp_staking (by simp [effectGen, isShareCall, isPayable, specEffectV, specValueOk, specEffect, resolve, Call.name])
+  | undelegate a => exact gen_of_row _ _ _ _ _ _ _ _ row_undelegate rfl disp_staking (by simp [effectGen, isShareCall, isPayable, specEffectV, specValueOk, specEffect, resolve, Call.name])
+  | redelegate a => exact gen_of_row _ _ _ _ _ _ _ _ row_redelegate rfl disp_staking (by simp [effectGen, isShareCall, isPayable, specEffectV, specValueOk, specEffect, resolve, Call.name])
+  | withdraw => exact gen_of_row _ _ _ _ _ _ _ _ row_withdraw rfl disp_staking (by simp [effectGen, isShareCall, isPayable, specEffectV, specValueOk, specEffect, resolve, Call.name])
   | approve sp s => exact gen_of_row _ _ _ _ _ _ _ _ row_approve rfl disp_staking (effectGen_approve _ _ _ _)
   | transferShares t s => exact gen_of_row _ _ _ _ _ _ _ _ row_ts rfl disp_staking (effectGen_ts _ _ _ _)
   | transferFromShares f t s => exact gen_of_row _ _ _ _ _ _ _ _ row_tfs rfl disp_staking (effectGen_tfs _ _ _ _ _)
-  | crossChain a f r => exact gen_of_row _ _ _ _ _ _ _ _ row_crossChain rfl disp_crosschain (by simp [effectGen, isShareCall, specEffect, resolve, Call.name])
-  | cancelSend i => exact gen_of_row _ _ _ _ _ _ _ _ row_cancel rfl disp_crosschain (by simp [effectGen, isShareCall, specEffect, resolve, Call.name])
-  | increaseFee i f => exact gen_of_row _ _ _ _ _ _ _ _ row_increase rfl disp_crosschain (by simp [effectGen, isShareCall, specEffect, resolve, Call.name])
-  | bridgeCall r t v => exact gen_of_row _ _ _ _ _ _ _ _ row_bridgeCall rfl disp_crosschain (by simp [effectGen, isShareCall, specEffect, resolve, Call.name])
-  | executeClaim n => exact gen_of_row _ _ _ _ _ _ _ _ row_executeClaim rfl disp_crosschain (by simp [effectGen, isShareCall, specEffect, resolve, Call.name])
+  | crossChain a f r => exact gen_of_row _ _ _ _ _ _ _ _ row_crossChain rfl disp_crosschain (effectGen_crossChain _ _ _ _ _)
+  | cancelSend i => exact gen_of_row _ _ _ _ _ _ _ _ row_cancel rfl disp_crosschain (by simp [effectGen, isShareCall, isPayable, specEffectV, specValueOk, specEffect, resolve, Call.name])
+  | increaseFee i f => exact gen_of_row _ _ _ _ _ _ _ _ row_increase rfl disp_crosschain (effectGen_increaseFee _ _ _ _)
+  | bridgeCall r t v => exact gen_of_row _ _ _ _ _ _ _ _ row_bridgeCall rfl disp_crosschain (by simp [effectGen, isShareCall, isPayable, specEffectV, specValueOk, specEffect, resolve, Call.name])
+  | executeClaim n => exact gen_of_row _ _ _ _ _ _ _ _ row_executeClaim rfl disp_crosschain (by simp [effectGen, isShareCall, isPayable, specEffectV, specValueOk, specEffect, resolve, Call.name])
 
 /-- a view never changes the world, whatever the table says about it -/
 theorem runGen_view (dis : List (List Char)) (ro : Bool) (addr mid : List Char) (env : Env) (n : String) (w : World) :
@@ -196,7 +264,7 @@ theorem runGen_view (dis : List (List Char)) (ro : Bool) (addr mid : List Char) 
     next d hd =>
       have hmem : d ∈ dispatchers := List.mem_of_find?_eq_some hd
       rw [steps_all d hmem, runSteps_canonical, checkDisabledGen_spec]
-      have heff : effectGen r env (.view n) w = .ok w := by simp [effectGen, isShareCall, effect]
+      have heff : effectGen r env (.view n) w = .ok w := by simp [effectGen, isShareCall, isPayable, effect]
       by_cases h1 : (ro && !r.info.readonly) = true
       · simp [h1]
       · cases hs : specDisabled dis addr mid <;> simp [h1, heff]
@@ -229,8 +297,12 @@ theorem applyOp_spec (w : World) (o : HOp) :
         cases hd : specDisabled o.dis o.addr o.mid with
         | true => left; simp
         | false =>
-          cases he : specEffect o.env.caller o.call w with
-          | error e => left; simp
-          | ok w' => right; left; simp
+          unfold specEffectV
+          cases hvok : specValueOk o.env o.call w with
+          | false => left; simp
+          | true =>
+            cases he : specEffect o.env.caller o.call w with
+            | error e => left; simp
+            | ok w' => right; left; simp
 
 end FxVerif.Proofs.C10
